@@ -139,8 +139,8 @@ type gen struct {
 	rng    *rand.Rand
 	cast   *cast
 	cl     *claimLog
-	ctr    int  // unique address counter of the case
-	pclass string // address class that survives filterAddrs for this remote (pub is always safe)
+	ctr    int            // unique address counter of the case
+	pclass string         // address class that survives filterAddrs for this remote (pub is always safe)
 	xAddrs []ma.Multiaddr // addresses the victim already knows for X (tempting to replay)
 	xRec   []byte         // X's genuine signed record, as stored by the victim
 	seqHi  uint64
